@@ -16,6 +16,7 @@ Superposition: ℝ with Mathlib's `rpow`.
 import KawinV.Gen.C18Strength
 import KawinV.Model.Strength
 import KawinV.Model.GrainGrowth
+import KawinV.Model.Coupling
 import KawinV.Props.C07
 import Mathlib.Tactic.Ring
 import Mathlib.Tactic.Linarith
@@ -912,6 +913,185 @@ theorem clockStep_sum (c t0 t1 t2 : α) : clockStep (clockStep c t0 t1) t1 t2 = 
 
 end clock
 
+/-! ## the coupling list of the host (GenericModel.addCouplingModel / clearCouplingModels / updateCoupledModels) -/
+section coupling
+open KawinV.Coupling
+
+/-- **attaching never detaches**: every model that was attached is still attached -/
+theorem attach_mem (l : List Mdl) (m m' : Mdl) (h : m' ∈ l) : m' ∈ attach l m := by
+  simp [Coupling.attach, h]
+
+/-- … and never reorders or alters: the old list is the prefix of the new one, the new model is last -/
+theorem attach_prefix (l : List Mdl) (m : Mdl) :
+    (attach l m).take l.length = l ∧ (attach l m).getLast? = some m ∧ (attach l m).length = l.length + 1 := by
+  simp [attach]
+
+theorem attach_count_other (l : List Mdl) (m m' : Mdl) (h : m ≠ m') : (attach l m).count m' = l.count m' := by
+  simp [Coupling.attach, List.count_append, List.count_singleton, h]
+
+theorem step_updates (l : List Mdl) (a : Nat) (m : Mdl) :
+    ((l.map (fun x => (a, x))).filter (fun e => e.2 = m)).map (·.1) = List.replicate (l.count m) a := by
+  induction l with
+  | nil => simp
+  | cons x l ih =>
+    by_cases h : x = m
+    · subst h; simp [List.replicate_succ, ih]
+    · simp [h, ih]
+
+theorem updatesOf_run (s : St) (ops : List Op) (m : Mdl) :
+    updatesOf (run attach s ops) m = updatesOf s m ++ expectedIdx m (s.models.count m) s.n ops := by
+  induction ops generalizing s with
+  | nil => simp [run, expectedIdx]
+  | cons o r ih =>
+    have hr : run attach s (o :: r) = run attach (applyOp attach s o) r := rfl
+    rw [hr, ih]
+    cases o with
+    | attach m' =>
+      by_cases h : m' = m
+      · subst h; simp [applyOp, expectedIdx, updatesOf, Coupling.attach]
+      · simp [applyOp, expectedIdx, updatesOf, Coupling.attach, h]
+    | clear => simp [applyOp, expectedIdx, updatesOf]
+    | step =>
+      simp only [applyOp, expectedIdx, updatesOf, List.filter_append, List.map_append, List.append_assoc]
+      rw [step_updates]
+
+
+theorem countSteps_cons_step (r : List Op) : countSteps (Op.step :: r) = countSteps r + 1 := by
+  simp [countSteps]
+theorem countSteps_cons_attach (m : Mdl) (r : List Op) : countSteps (Op.attach m :: r) = countSteps r := by
+  simp [countSteps]
+theorem countSteps_cons_clear (r : List Op) : countSteps (Op.clear :: r) = countSteps r := by
+  simp [countSteps]
+
+theorem expectedIdx_not_attached (m : Mdl) (n : Nat) (pre rest : List Op) (h : Op.attach m ∉ pre) :
+    expectedIdx m 0 n (pre ++ rest) = expectedIdx m 0 (n + countSteps pre) rest := by
+  induction pre generalizing n with
+  | nil => simp [countSteps]
+  | cons o r ih =>
+    have hr : Op.attach m ∉ r := fun hh => h (List.mem_cons_of_mem _ hh)
+    cases o with
+    | attach m' =>
+      have hne : m' ≠ m := fun e => h (by simp [e])
+      simp only [List.cons_append, expectedIdx, if_neg hne, countSteps_cons_attach]
+      exact ih n hr
+    | clear =>
+      simp only [List.cons_append, expectedIdx, countSteps_cons_clear]
+      exact ih n hr
+    | step =>
+      simp only [List.cons_append, expectedIdx, countSteps_cons_step, List.replicate_zero, List.nil_append]
+      rw [ih (n + 1) hr]; congr 1; omega
+
+theorem expectedIdx_attached (m : Mdl) (n : Nat) (post : List Op) (h : Op.attach m ∉ post) (hc : Op.clear ∉ post) :
+    expectedIdx m 1 n post = List.range' (n + 1) (countSteps post) := by
+  induction post generalizing n with
+  | nil => simp [countSteps, expectedIdx]
+  | cons o r ih =>
+    have hr : Op.attach m ∉ r := fun hh => h (List.mem_cons_of_mem _ hh)
+    have hcr : Op.clear ∉ r := fun hh => hc (List.mem_cons_of_mem _ hh)
+    cases o with
+    | attach m' =>
+      have hne : m' ≠ m := fun e => h (by simp [e])
+      simp only [expectedIdx, if_neg hne, countSteps_cons_attach]
+      exact ih n hr hcr
+    | clear => exact absurd (List.mem_cons_self) hc
+    | step =>
+      simp only [expectedIdx, countSteps_cons_step]
+      rw [ih (n + 1) hr hcr, List.range'_succ]; simp
+
+theorem run_append (att : List Mdl → Mdl → List Mdl) (s : St) (a b : List Op) :
+    run att s (a ++ b) = run att (run att s a) b := by simp [run, List.foldl_append]
+
+theorem attached_updated_every_step (pre post : List Op) (m : Mdl)
+    (hpre : Op.attach m ∉ pre) (hpost : Op.attach m ∉ post) (hclear : Op.clear ∉ post) :
+    updatesOf (run attach init (pre ++ Op.attach m :: post)) m
+      = List.range' (countSteps pre + 1) (countSteps post) := by
+  rw [updatesOf_run]
+  have h0 : updatesOf init m = [] := rfl
+  have h1 : List.count m init.models = 0 := rfl
+  have h2 : init.n = 0 := rfl
+  rw [h0, h1, h2, List.nil_append, expectedIdx_not_attached m _ pre _ hpre]
+  simp only [expectedIdx, if_true, Nat.zero_add]
+  exact expectedIdx_attached m _ post hpost hclear
+
+/-- **every attached model is updated exactly once per host step since its attachment** (count form):
+whatever else is attached, cleared or attached later -/
+theorem attached_updates_count (pre post : List Op) (m : Mdl)
+    (hpre : Op.attach m ∉ pre) (hpost : Op.attach m ∉ post) (hclear : Op.clear ∉ post) :
+    updates (run attach init (pre ++ Op.attach m :: post)) m = countSteps post := by
+  unfold updates
+  rw [attached_updated_every_step pre post m hpre hpost hclear]; simp
+
+/-- a model that was never attached is never updated -/
+theorem never_attached_never_updated (ops : List Op) (m : Mdl) (h : Op.attach m ∉ ops) :
+    updatesOf (run attach init ops) m = [] := by
+  rw [updatesOf_run]
+  have h0 : updatesOf init m = [] := rfl
+  have h1 : List.count m init.models = 0 := rfl
+  have hx := expectedIdx_not_attached m init.n ops [] h
+  rw [List.append_nil] at hx
+  rw [h0, h1, hx]; simp [expectedIdx]
+
+/-- **attaching a model never alters another**: the update calls any OTHER model receives are the same
+with and without the attach operation, wherever it sits in the history -/
+theorem attach_does_not_alter_others (s : St) (pre post : List Op) (m m' : Mdl) (h : m ≠ m') :
+    updatesOf (run attach s (pre ++ Op.attach m :: post)) m' = updatesOf (run attach s (pre ++ post)) m' := by
+  rw [run_append, run_append]
+  have hr : run attach (run attach s pre) (Op.attach m :: post)
+      = run attach (applyOp attach (run attach s pre) (Op.attach m)) post := rfl
+  rw [hr, updatesOf_run, updatesOf_run]
+  simp only [applyOp, updatesOf, attach_count_other _ _ _ h]
+
+/-- after `clearCouplingModels` nobody is updated until attached again -/
+theorem cleared_not_updated (s : St) (post : List Op) (m : Mdl) (hpost : Op.attach m ∉ post) :
+    updatesOf (run attach s (Op.clear :: post)) m = updatesOf s m := by
+  have hr : run attach s (Op.clear :: post) = run attach (applyOp attach s Op.clear) post := rfl
+  rw [hr, updatesOf_run]
+  have hx := expectedIdx_not_attached m s.n post [] hpost
+  rw [List.append_nil] at hx
+  simp only [applyOp, List.count_nil]
+  rw [hx]; simp [expectedIdx, updatesOf]
+
+/-! the variant that de-duplicates by class -/
+
+/-- `attachDedup` drops every other attached model of the new model's class … -/
+theorem attachDedup_drops (l : List Mdl) (m m' : Mdl) (hc : m'.cls = m.cls) (hne : m' ≠ m) :
+    m' ∉ attachDedup l m := by
+  simp [attachDedup, hc, hne]
+
+/-- … so it does not preserve membership (two parameter sets of one class on one host) -/
+theorem attachDedup_not_preserving : ∃ (l : List Mdl) (m m' : Mdl), m' ∈ l ∧ m' ∉ attachDedup l m :=
+  ⟨[⟨0, 7⟩], ⟨1, 7⟩, ⟨0, 7⟩, by simp, by decide⟩
+
+/-- witness: two models of one class, two host steps: the first is never updated with the
+de-duplicating attach, twice (host indices 1, 2) with kawin's attach; a model of another class is
+not affected -/
+theorem dedup_detaches_first_of_same_class :
+    updatesOf (run attachDedup init [.attach ⟨0, 7⟩, .attach ⟨2, 5⟩, .attach ⟨1, 7⟩, .step, .step]) ⟨0, 7⟩ = [] ∧
+    updatesOf (run attach init [.attach ⟨0, 7⟩, .attach ⟨2, 5⟩, .attach ⟨1, 7⟩, .step, .step]) ⟨0, 7⟩ = [1, 2] ∧
+    updatesOf (run attachDedup init [.attach ⟨0, 7⟩, .attach ⟨2, 5⟩, .attach ⟨1, 7⟩, .step, .step]) ⟨2, 5⟩ = [1, 2] := by
+  decide
+
+end coupling
+
+section couplingHistory
+open KawinV.Coupling
+variable {α : Type} [Zero α]
+
+/-- **strength history of an attached model**: fed with the rows of exactly the host steps at which
+it was updated, the history of a StrengthModel attached at any time (fresh: `none`) has one row per
+host step since its attachment plus its initial row — independent of the other attached models -/
+theorem attached_history_length (P : Nat) (ss0 : α) (rowOf : Nat → Step α) (pre post : List Op) (m : Mdl)
+    (hpre : Op.attach m ∉ pre) (hpost : Op.attach m ∉ post) (hclear : Op.clear ∉ post) :
+    histLen (runSolve P ss0 none ((updatesOf (run attach init (pre ++ Op.attach m :: post)) m).map rowOf))
+      = if countSteps post = 0 then 0 else countSteps post + 1 := by
+  rw [attached_updated_every_step pre post m hpre hpost hclear]
+  have h := history_length P ss0 [(List.range' (countSteps pre + 1) (countSteps post)).map rowOf]
+  simp only [runSolves, List.foldl_cons, List.foldl_nil, List.map_cons, List.map_nil, List.length_map,
+    List.length_range', List.sum_cons, List.sum_nil, Nat.add_zero] at h
+  exact h
+
+end couplingHistory
+
 /-! ### non-vacuity: concrete instances of the hypothesis sets -/
 
 example : clip (fun _ : ℚ => true) (-3) = 0 ∧ clip (fun _ : ℚ => true) 5 = 5 := by
@@ -935,5 +1115,12 @@ example : clockRun (0:ℚ) [0, 1, 3] = [1, 3] := by
   rw [clock_eq_host]
 example : histLen (runSolves 1 (0:ℚ) none [[⟨[1], [2], 3⟩], [], [⟨[4], [5], 6⟩, ⟨[7], [8], 9⟩]]) = 4 := by
   rw [history_length]; simp
+-- the hypotheses of attached_updated_every_step: a history with other models (same class), a clear BEFORE the attachment and steps
+example : Coupling.updatesOf (Coupling.run Coupling.attach Coupling.init
+    ([.attach ⟨0, 7⟩, .step, .clear, .step] ++ Coupling.Op.attach ⟨1, 7⟩ :: [.step, .attach ⟨2, 7⟩, .step, .attach ⟨0, 7⟩, .step])) ⟨1, 7⟩
+    = [3, 4, 5] := by
+  rw [attached_updated_every_step _ _ _ (by decide) (by decide) (by decide)]; decide
+example : Coupling.attach [⟨0, 7⟩, ⟨2, 5⟩] ⟨1, 7⟩ = [⟨0, 7⟩, ⟨2, 5⟩, ⟨1, 7⟩] ∧ Coupling.attachDedup [⟨0, 7⟩, ⟨2, 5⟩] ⟨1, 7⟩ = [⟨2, 5⟩, ⟨1, 7⟩] := by
+  decide
 
 end KawinV.Props.C18
